@@ -125,7 +125,15 @@ def fixed_workloads(group):
         return [[{"op": "add", "val": 1}, {"op": "add", "val": 3}, {"op": "update", "id": 1, "val": 2},
                  {"op": "update", "id": 2, "val": 6}, {"op": "flush"}, {"op": "update", "id": 1, "val": 5},
                  {"op": "add", "val": 1}, {"op": "update", "id": 3, "val": 4}, {"op": "remove", "id": 2},
-                 {"op": "flush"}, {"op": "reopen"}, {"op": "update", "id": 1, "val": 2}, {"op": "flush"}]]
+                 {"op": "flush"}, {"op": "reopen"}, {"op": "update", "id": 1, "val": 2}, {"op": "flush"}],
+                # the UNIQUE array field h: id1 = value 3 (h = [2,4]), id2 = value 5 (h = [1]).  update id1 -> value 1
+                # (h = [1,2]) is refused on key 1 AFTER key 4 would have been dropped; update id2 -> value 1 is refused
+                # on key 2 with nothing to drop; a refused update leaves every posting where it was - then an add
+                # that would fit only if a posting had leaked (value 4 has h = [], value 2 has h = [3])
+                [{"op": "add", "val": 3}, {"op": "add", "val": 5}, {"op": "update", "id": 1, "val": 1},
+                 {"op": "update", "id": 2, "val": 1}, {"op": "add", "val": 4}, {"op": "update", "id": 3, "val": 3},
+                 {"op": "flush"}, {"op": "update", "id": 1, "val": 1}, {"op": "add", "val": 2}, {"op": "remove", "id": 2},
+                 {"op": "update", "id": 1, "val": 1}, {"op": "flush"}, {"op": "reopen"}, {"op": "update", "id": 4, "val": 3}]]
     return []
 
 
